@@ -518,10 +518,16 @@ func c49NonSepSlash(line string) bool {
 // is below X. ok=false: not of that shape.
 func c49TrailingStarStar(line string) (extra string, ok bool) {
 	neg, p, _ := c49Core(line)
-	if len(p) < 4 || p[len(p)-3:] != "/**" {
+	// a trailing segment of two or more stars (since repair aeeef50 go-git
+	// reads "***" as "**", like git)
+	k := len(p)
+	for k > 0 && p[k-1] == '*' {
+		k--
+	}
+	if len(p)-k < 2 || k < 2 || p[k-1] != '/' {
 		return "", false
 	}
-	x := p[:len(p)-3]
+	x := p[:k-1]
 	if x[0] == '/' {
 		x = x[1:]
 	}
@@ -669,9 +675,9 @@ func c49ReadTrim(files [][]string) (out [][]string, changed bool) {
 // all known deviations except the empty-segment class (and, in the verdict,
 // negDesc=true).
 func c49GoGitReading(files [][]string) [][]string {
-	f, _ := c49ReadTrim(files)
-	f, _ = c49DropNonSep(f)
-	f, _ = c49ReadManyStars(f)
+	// The trailing-space and many-stars rewritings described go-git before
+	// the repairs 1fe0b53 and aeeef50; go-git now reads those lines as git does.
+	f, _ := c49DropNonSep(files)
 	f, _ = c49AddDirOfStarStar(f)
 	return f
 }
